@@ -257,8 +257,8 @@ func VH_C10_FolderUploadCut_sym() {
 	}
 }
 
-// A folder with two visible files and a hidden folder that itself holds a visible file. The client resumes both
-// files from different offsets. The count announced for the folder equals the item headers sent, and each resumed
+// A folder with two visible files and a hidden folder that itself holds a visible file. The client resumes the first
+// file and resumes or plainly requests the second (a plain request after a resume starts at byte 0 again). The count announced for the folder equals the item headers sent, and each resumed
 // file is framed with its own offset.
 func VH_C10_FolderDownloadTwoResumes_sym() {
 	vUnroll(300)
@@ -278,7 +278,7 @@ func VH_C10_FolderDownloadTwoResumes_sym() {
 	announced := int(count[0])<<8 | int(count[1])
 
 	ka := vChoice("offset_a", 3)
-	kb := 1 + vChoice("offset_b", 3)
+	kb := vChoice("offset_b", 4) // 0: the second file is plainly sent after the first one was resumed
 	resume := func(k int) []byte {
 		rd, _ := NewFileResumeData([]ForkInfoList{*NewForkInfoList([]byte{0, 0, 0, byte(k)})}).BinaryMarshal()
 		x := []byte{0, 2, byte(len(rd) >> 8), byte(len(rd))}
@@ -289,7 +289,11 @@ func VH_C10_FolderDownloadTwoResumes_sym() {
 	in = append(in, 0, 3)
 	in = append(in, resume(ka)...)
 	in = append(in, 0, 3)
-	in = append(in, resume(kb)...)
+	if kb == 0 {
+		in = append(in, 0, 1)
+	} else {
+		in = append(in, resume(kb)...)
+	}
 	in = append(in, 0, 3)
 	c := &vScriptRW{in: in}
 	ft := &FileTransfer{bytesSentCounter: &WriteCounter{}}
